@@ -39,7 +39,7 @@ end
 
 def Node.withNs (n' : NsMap) : Node → Node
   | .element m a _ d xt xn => .element m a n' d xt xn
-  | .primitive pm v _ => .primitive pm v n'
+  | .primitive pm v _ nil => .primitive pm v n' nil
   | .standard v dt _ nl d mx => .standard v dt n' nl d mx
   | .wildcard v a _ => .wildcard v a n'
   | .skip => .skip
@@ -48,7 +48,7 @@ def Node.withNs (n' : NsMap) : Node → Node
 /-- the node was created for an element with these attributes and this prefix map -/
 def nodeFits (a : List (QN × Str)) (n : NsMap) : Node → Prop
   | .element _ a' n' _ _ _ => a' = a ∧ n' = n
-  | .primitive _ _ n' => n' = n
+  | .primitive _ _ n' _ => n' = n
   | .standard _ _ n' _ _ _ => n' = n
   | .wildcard _ a' n' => a' = a ∧ n' = n
   | .skip => True
@@ -391,13 +391,13 @@ theorem parseNode_nsRel (e : BEnv) (Γ : Ctx) (cfg : ParserConfig) (node : Node)
   case skip => intros; simp [parseNode, Node.withNs]
   case wrapper => intros; simp [parseNode, Node.withNs]
   case prim1 =>
-    intro q a n t c tl pm var ns hc q0 a0 n0 t0 c0 tl0 q' a' n' t' c' tl' heq hr _
+    intro q a n t c tl pm var ns nil hc q0 a0 n0 t0 c0 tl0 q' a' n' t' c' tl' heq hr _
     cases heq
     simp only [nsRel, Bool.and_eq_true, decide_eq_true_eq] at hr
     have he := nsRelL_isEmpty e _ _ hr.2
     simp only [parseNode, Node.withNs, he, hc, if_true]
   case prim2 =>
-    intro q a n t c tl pm var ns hc q0 a0 n0 t0 c0 tl0 q' a' n' t' c' tl' heq hr hf
+    intro q a n t c tl pm var ns nil hc q0 a0 n0 t0 c0 tl0 q' a' n' t' c' tl' heq hr hf
     cases heq
     simp only [nsRel, Bool.and_eq_true, decide_eq_true_eq] at hr
     obtain ⟨⟨⟨⟨⟨hq, ha⟩, ht⟩, htl⟩, hv⟩, hk⟩ := hr
